@@ -138,8 +138,7 @@ func (r *objectSetRemotePhaseReconciler) Reconcile(
 			return nil, controllers.ProbingResult{}, fmt.Errorf("creating new ObjectSetPhase: %w", err)
 		}
 		currentObjectSetPhase = desiredObjectSetPhase
-	}
-	if err != nil {
+	} else if err != nil {
 		return nil, controllers.ProbingResult{}, fmt.Errorf("getting existing ObjectSetPhase: %w", err)
 	}
 
